@@ -5,7 +5,7 @@
 typedef struct { const char *key; size_t off; int kind; } fielddesc; /* kind 0 int, 1 u64 hex, 2 double, 3 long */
 #define FI(k) { #k, offsetof(vcase, k), 0 }
 static const fielddesc fields[] = {
-    FI(prop), FI(fam), FI(type), FI(m), FI(n), { "pat", offsetof(vcase, pat), 1 },
+    FI(prop), FI(fam), FI(type), FI(m), FI(n), { "pat", offsetof(vcase, pat), 1 }, FI(gen),
     FI(vals), FI(colperm), FI(permid), FI(sym), FI(stor), FI(nrhs), FI(ldbx), FI(trans), FI(equil), FI(refine), FI(rhs), FI(fillb),
     FI(cond), FI(growth), FI(fact), FI(lworkmode), FI(align), FI(fest), FI(k), FI(aux), FI(aux2), FI(aux3),
     { "lwork", offsetof(vcase, lwork), 3 }, { "u", offsetof(vcase, u), 2 }, { "idx", offsetof(vcase, idx), 3 },
